@@ -14,6 +14,7 @@ static void init(const sk_opts* o)
 	else if (!strcmp(v, "bakebase")) which = 6;
 	else if (!strcmp(v, "bakediff")) which = 7;
 	else if (!strcmp(v, "bakeadv")) which = 8;
+	else if (!strcmp(v, "baketape")) which = 9;
 	else which = 0;
 }
 
@@ -29,6 +30,7 @@ static void run(uint64_t seed, const sk_mask* mask, sk_result* out)
 	case 6: run_bake_base(seed, mask, out); break;
 	case 7: run_bake_diff(seed, mask, out); break;
 	case 8: run_bake_adv(seed, mask, out); break;
+	case 9: run_bake_tape(seed, mask, out); break;
 	default: run_pki(seed, mask, out); break;
 	}
 }
